@@ -36,7 +36,7 @@ VALID_BASE = {
 
 SERIALS = {
     "ET": [("9010KETU000W0000", 10000), ("95000EHU00000000", 5000), ("9010KETT000W0000", 10000),
-           ("929K9ETF000W0000", 29900), ("9010KHSB000W0000", 10000)],
+           ("929K9ETF000W0000", 29900), ("9010KHSB000W0000", 10000), ("9025KETT00W00000", 25000), ("9015KETU000W0000", 15000)],
     "DT": [("9010KDTU000W0000", 0), ("95000DSN000W0000", 0), ("910KMSU0000W0000", 0)],
     "ES": [("95048ESU000W0000", 0)],
 }
@@ -440,7 +440,7 @@ def gen_span_programs(tier: str, rnd: random.Random) -> list[dict]:
     progs = []
     modes = ["zero", "ff", "7f", "80", "small"] + ["random"] * (6 if quick else 40)
     for fam in ("ET", "DT", "ES"):
-        for serial, rated in (SERIALS[fam][:3] if quick else SERIALS[fam]):
+        for serial, rated in SERIALS[fam]:      # one serial per model-predicate class (phases, platform, MPPT count, batteries)
             for port in ((8899,) if quick or fam == "ES" else (8899, 502)):
                 fills = []
                 for m in modes:
